@@ -39,8 +39,11 @@ JudgeMatch(e) ==
             \o Fails(e, "DRIFT_WellRanked",
                      Len(e.solutions) > 0 => WellRanked(AsSetJ(e.solutions[1]), sols, ion))
             \o Fails(e, "NoDuplicateCompletions", Len(e.solutions) = Cardinality(sols))
-            \* with the ion_priority ranking match() returns the shortest completions only
-            \o (LET all == Solutions(recs, e.data)
+            \* with the ion_priority ranking match() returns the shortest completions only; the
+            \* model's solution set is recomputed for imbalances of at most 7 atoms (the search is
+            \* exponential in the number of atoms)
+            \o (IF e.natoms > 7 THEN <<>> ELSE
+                LET all == Solutions(recs, e.data)
                     shortest == {s \in all : \A t \in all : Cardinality(s) <= Cardinality(t)}
                 IN   Fails(e, "DRIFT_ShortestOfAll",
                            \A s \in sols : \A t \in all : Cardinality(s) <= Cardinality(t))
